@@ -1038,12 +1038,18 @@ class Descriptor(ObjectWithFields):
                                      self.classname(), self.size, len(payload))
             self.size = len(payload)
         d.write('B', 'tag')
+        # sizeOfInstance: 7 bits per byte, most significant group first.
         sizes = []
         size = self.size
         while size > 0x7f:
-            sizes.append(size & 0x7f)
+            sizes.insert(0, size & 0x7f)
             size = size >> 7
-        sizes.append(size & 0x7f)
+        sizes.insert(0, size & 0x7f)
+        # A size may be padded with leading 0x80 bytes (many encoders always
+        # use 4 bytes). Keep the number of bytes that was parsed.
+        num_size_bytes: int = self.__dict__.get('header_size', 1) - 1
+        while len(sizes) < num_size_bytes:
+            sizes.insert(0, 0)
         while sizes:
             a = sizes.pop(0)
             flag = 0x80 if sizes else 0x00
@@ -1224,7 +1230,8 @@ class DecoderSpecificInfo(Descriptor):
                 r.read(1, "extension_flag_3")
         rv["data"] = None
         if r.bitpos() != (8 * rv["size"]):
-            skip = 8 - r.bitpos() & 7
+            # bits up to the next byte boundary
+            skip = (8 - (r.bitpos() & 7)) & 7
             if skip:
                 r.read(skip, 'reserved')
             if r.bytepos() != rv["size"]:
@@ -1255,6 +1262,10 @@ class DecoderSpecificInfo(Descriptor):
                     w.writebits(1, "aac_scalefactor_data_resilience_flag")
                     w.writebits(1, "aac_spectral_data_resilience_flag")
                 w.writebits(1, "extension_flag_3")
+        if w.bits is not None and (len(w.bits) & 7):
+            # the bits that the parser skipped to reach a byte boundary
+            w.writebits(8 - (len(w.bits) & 7), 'reserved',
+                        value=self.__dict__.get('reserved', 0))
         w.done()
         if self.data is not None:
             w.write(None, "data")
